@@ -343,8 +343,33 @@ def buffer_rules(chk):
     if flushed_paths == 0:
         chk.bad(rule, run.qual, "no path through the window loop forwards the pending demand", node=loop, stmt="never")
         ok = False
+    # (c) the constructor: bound to the target it is given, and the pending value starts as the target's own demand,
+    # so that a boundary before the first write forwards nothing that was never written
+    init = prog.lookup_method(cls, "__init__")
+    if init is not None and init.cls is cls and init.params():
+        T = ("sym", init.params()[0])
+        for o in Interp(prog, init, assert_raises=False).run():
+            chk.count()
+            if o.kind not in ("normal", "return"):
+                continue
+            evs = o.path.events
+            sup = [e[1] for e in evs if e[0] == "call" and e[1][1][0] == "attr" and e[1][1][2] == "__init__"]
+            tgt = [e for e in evs if e[0] == "store" and e[1] == ("attr", SELF, "target")]
+            if not any(list(c[2])[:1] == [T] or dict(c[3]).get("target") == T for c in sup) and not any(e[2] == T for e in tgt):
+                chk.bad(rule, init.qual, "the Buffer is not bound to the target it is given (PoolDecorator.__init__(target) is not reached): the window loop has nothing to forward to", node=init.node, stmt="target-not-bound")
+                ok = False
+            pend = [strip_sites(e[2]) for e in evs if e[0] == "store" and e[1] == pending]
+            if not pend or pend[-1] not in (("attr", T, "demand"), tdemand):
+                chk.bad(
+                    rule,
+                    init.qual,
+                    "the pending demand starts as %s instead of the target's current demand: the first window boundary forwards a value nobody wrote to the Buffer" % (show(pend[-1]) if pend else "the class default %s" % util.unparse(cls.class_attrs["demand"])),
+                    node=init.node,
+                    stmt="pending-not-initialised",
+                )
+                ok = False
     if ok:
-        chk.ok(rule, run.qual, "demand shadowed by a plain attribute; single guarded store of the pending value per window", node=loop)
+        chk.ok(rule, run.qual, "demand shadowed by a plain attribute; single guarded store of the pending value per window; pending value initialised from the target's demand", node=loop)
 
 
 def factory_run(chk):
@@ -363,6 +388,13 @@ def factory_run(chk):
     if loop is None:
         chk.undecided(rule, run.qual, "no single loop", node=run.node)
         return
+    role_names = {}
+    try:
+        from . import c15
+
+        role_names = {k: v.name for k, v in c15.discover(chk)[3].items()}
+    except Undecided:
+        pass
     it = Interp(prog, run, unroll=1, inline=helper_inline(cls))
     outs = it.exec_block(loop.body, Path())
     supply = ("attr", SELF, "supply")
@@ -386,8 +418,8 @@ def factory_run(chk):
         seen.add(which)
         want_shrink = s <= frozenset(">")
         want_grow = not (s & frozenset(">"))
-        is_shrink = "shrink" in which
-        is_grow = "grow" in which
+        is_shrink = which == role_names.get("shrink", "") or (not role_names and "shrink" in which)
+        is_grow = which == role_names.get("grow", "") or (not role_names and "grow" in which)
         if not (is_shrink or is_grow):
             chk.undecided(rule, run.qual, "adjustment step %s not recognised" % which, node=loop)
             ok = False
